@@ -101,3 +101,266 @@ class _AccLoop(LoopContract):
 class SumLoop(_AccLoop):
     def val(self, x, j, c):
         return x.psum(self.L, j, c)
+
+
+@spec("WeightedSum")
+class WeightedSumSpec(NaryMixin, CommandSpec):
+    def raises(self, x):
+        n, nw = x.n("InFieldNames"), x.n("Weights")
+        return [("MismatchedWeights", nw != n),
+                ("EmptyInputs", z3.And(nw == n, n == 0)),
+                ("MixedArrayShapes", ("exists_k", lambda k: z3.And(nw == n, k >= 1, k < n, x.shape("InFieldNames", k) != x.shape("InFieldNames", z3.IntVal(0)))))]
+
+    def result(self, x):
+        L, n = "InFieldNames", x.n("InFieldNames")
+        return dict(shape=x.shape(L, z3.IntVal(0)), dtype=x.pwdtype(L, "Weights", n - 1),
+                    miss=lambda c: x.pmiss(L, n - 1, c), value=lambda c: x.pwsum(L, "Weights", n - 1, c))
+
+
+@loop(B + "::WeightedSum.execute", "for", 0)
+class WeightedSumLoop(_AccLoop):
+    def inv(self, I):
+        I.temps("weight")
+        _AccLoop.inv(self, I)
+
+    def val(self, x, j, c):
+        return x.pwsum(self.L, "Weights", j, c)
+
+    def dtype(self, x, j):
+        return x.pwdtype(self.L, "Weights", j)
+
+
+@spec("Multiply")
+class MultiplySpec(NaryMixin, CommandSpec):
+    def raises(self, x):
+        return self.nary_raises(x)
+
+    def result(self, x):
+        L, n = self.LIST, x.n(self.LIST)
+        return dict(shape=x.shape(L, z3.IntVal(0)), dtype=x.pdtype(L, n - 1),
+                    miss=lambda c: x.pmiss(L, n - 1, c), value=lambda c: x.pprod(L, n - 1, c))
+
+
+@loop(B + "::Multiply.execute", "for", 0)
+class MultiplyLoop(_AccLoop):
+    def val(self, x, j, c):
+        return x.pprod(self.L, j, c)
+
+
+@spec("Minimum")
+class MinimumSpec(NaryMixin, CommandSpec):
+    def raises(self, x):
+        return self.nary_raises(x)
+
+    def result(self, x):
+        L, n = self.LIST, x.n(self.LIST)
+        return dict(shape=x.shape(L, z3.IntVal(0)), dtype=x.pdtype(L, n - 1),
+                    miss=lambda c: x.pmiss(L, n - 1, c), value=lambda c: x.pmin(L, n - 1, c))
+
+
+@spec("Maximum")
+class MaximumSpec(NaryMixin, CommandSpec):
+    def raises(self, x):
+        return self.nary_raises(x)
+
+    def result(self, x):
+        L, n = self.LIST, x.n(self.LIST)
+        return dict(shape=x.shape(L, z3.IntVal(0)), dtype=x.pdtype(L, n - 1),
+                    miss=lambda c: x.pmiss(L, n - 1, c), value=lambda c: x.pmax(L, n - 1, c))
+
+
+class _FoldLoop(_AccLoop):
+    VAR = "$acc"
+
+    def inv(self, I):
+        x = I.eng.x
+        L = self.L
+        I.arr(self.VAR, "MA", self.dtype(x, I.j), x.shape(L, z3.IntVal(0)),
+              lambda c: x.pmiss(L, I.j, c), lambda c: self.val(x, I.j, c))
+
+
+@loop(B + "::Minimum.execute", "reduce", 0)
+class MinimumFold(_FoldLoop):
+    def val(self, x, j, c):
+        return x.pmin(self.L, j, c)
+
+
+@loop(B + "::Maximum.execute", "reduce", 0)
+class MaximumFold(_FoldLoop):
+    def val(self, x, j, c):
+        return x.pmax(self.L, j, c)
+
+
+class _SumFold(LoopContract):
+    """builtin sum(arrays): after j >= 1 iterations the accumulator is 0 + a_0 + ... + a_{j-1}"""
+    L = "InFieldNames"
+
+    def dtype(self, x, j):
+        return x.pdtype(self.L, j)
+
+    def inv(self, I):
+        x = I.eng.x
+        L = self.L
+        I.arr("$acc", "MA", self.dtype(x, I.j - 1), x.shape(L, z3.IntVal(0)),
+              lambda c: x.pmiss(L, I.j - 1, c), lambda c: x.psum(L, I.j - 1, c))
+
+
+@spec("Mean")
+class MeanSpec(NaryMixin, CommandSpec):
+    def raises(self, x):
+        return self.nary_raises(x)
+
+    def result(self, x):
+        L, n = self.LIST, x.n(self.LIST)
+        return dict(shape=x.shape(L, z3.IntVal(0)), dtype=FLT,
+                    miss=lambda c: x.pmiss(L, n - 1, c), value=lambda c: x.psum(L, n - 1, c) / z3.ToReal(n))
+
+
+@loop(B + "::Mean.execute", "sum", 0)
+class MeanSum(_SumFold):
+    pass
+
+
+@spec("WeightedMean")
+class WeightedMeanSpec(NaryMixin, CommandSpec):
+    def raises(self, x):
+        return WeightedSumSpec.raises(self, x)
+
+    def result(self, x):
+        L, n = "InFieldNames", x.n("InFieldNames")
+        sw = x.wsum("Weights").t
+        return dict(shape=x.shape(L, z3.IntVal(0)), dtype=FLT,
+                    miss=lambda c: z3.Or(x.pmiss(L, n - 1, c), sw == 0),
+                    value=lambda c: x.pwsum(L, "Weights", n - 1, c) / sw)
+
+
+@loop(B + "::WeightedMean.execute", "for", 0)
+class WeightedMeanLoop(WeightedSumLoop):
+    pass
+
+
+# ------------------------------------------------------------------ normalisations
+def opt(x, name, default):
+    return z3.If(x.has(name), x.num(name), z3.RealVal(default))
+
+
+@spec("Normalize")
+class NormalizeSpec(CommandSpec):
+    uses_stats = True
+
+    def result(self, x):
+        N = "InFieldName"
+        vmin, vmax = x.stat(N, "vmin"), x.stat(N, "vmax")
+        start, end = opt(x, "StartVal", 0), opt(x, "EndVal", 1)
+        return dict(shape=x.shape(N), dtype=FLT,
+                    miss=lambda c: z3.Or(x.miss(N, c), vmin == vmax),
+                    value=lambda c: (x.view(N, c) - vmin) * (end - start) / (vmax - vmin) + start)
+
+
+@spec("NormalizeZScore")
+class NormalizeZScoreSpec(CommandSpec):
+    uses_stats = True
+
+    def parts(self, x):
+        N = "InFieldName"
+        mean, std = x.stat(N, "vmean"), x.stat(N, "vstd")
+        tt, ft = opt(x, "TrueThresholdZScore", 0), opt(x, "FalseThresholdZScore", 1)
+        start, end = opt(x, "StartVal", 0), opt(x, "EndVal", 1)
+        x1, x2 = mean + std * tt, mean + std * ft
+        return x1, x2, start, end
+
+    def result(self, x):
+        from contracts.eems_common import clamp
+        N = "InFieldName"
+        x1, x2, start, end = self.parts(x)
+        return dict(shape=x.shape(N), dtype=FLT,
+                    miss=lambda c: z3.Or(x.miss(N, c), x2 - x1 == 0),
+                    value=lambda c: clamp((x.view(N, c) - x1) * (start - end) / (x2 - x1) + end, start, end))
+
+
+@spec("NormalizeCat")
+class NormalizeCatSpec(CommandSpec):
+    RAW, NORMAL, DEFAULT = "RawValues", "NormalValues", "DefaultNormalValue"
+
+    def raises(self, x):
+        nr, nn = x.n(self.RAW), x.n(self.NORMAL)
+        return [("MixedArrayLengths", nr != nn), ("DuplicateRawValues", z3.And(nr == nn, z3.Not(x.distinct(self.RAW))))]
+
+    def cat(self, x, j, c):
+        N = "InFieldName"
+        d = x.num(self.DEFAULT)
+        rf = x.recfun("cat", lambda c: z3.If(x.view(N, c) == x.w(self.RAW, z3.IntVal(0)), x.w(self.NORMAL, z3.IntVal(0)), d),
+                      lambda prev, k, c: z3.If(x.view(N, c) == x.w(self.RAW, k), x.w(self.NORMAL, k), prev))
+        return rf.at(j, c)
+
+    def result(self, x):
+        N = "InFieldName"
+        n = x.n(self.RAW)
+        return dict(shape=x.shape(N), dtype=FLT, miss=lambda c: x.miss(N, c),
+                    value=lambda c: z3.If(n == 0, x.num(self.DEFAULT), self.cat(x, n - 1, c)))
+
+
+@loop(B + "::NormalizeCat.execute", "for", 0)
+class NormalizeCatLoop(LoopContract):
+    def inv(self, I):
+        x = I.eng.x
+        N = "InFieldName"
+        I.temps("raw", "normal")
+        sp = SPECS["NormalizeCat"]
+        s = I.st.get(I.st.env["result"]) if I.mode == "check" else None
+        # the result's own mask/kind are whatever the code made them: keep the observed ones and let the exit check judge
+        cur = I.st.get(I.st.env["result"])
+        I.arr("result", cur.kind, FLT, x.shape(N), cur.miss if I.mode == "check" else (lambda c: z3.BoolVal(False)),
+              lambda c: sp.cat(x, I.j - 1, c), where=lambda c: z3.Not(x.miss(N, c)))
+
+
+@spec("NormalizeCurve")
+class NormalizeCurveSpec(CommandSpec):
+    RAW, NORMAL = "RawValues", "NormalValues"
+
+    def requires(self, x):
+        # at least one control point (an empty curve is inadmissible)
+        N = "InFieldName"
+        P, Q, m, dist = x.sorted(self.RAW, self.NORMAL)
+        cv, facts = x.curve("nc", P, Q, m, lambda c: x.view(N, c))
+        for f in facts:
+            x.st0.assume_all_cells(f)
+        return [z3.Or(x.n(self.RAW) >= 1, x.n(self.RAW) != x.n(self.NORMAL))]
+
+    def raises(self, x):
+        nr, nn = x.n(self.RAW), x.n(self.NORMAL)
+        return [("MixedArrayLengths", nr != nn), ("DuplicateRawValues", z3.And(nr == nn, z3.Not(x.distinct(self.RAW))))]
+
+    def result(self, x):
+        N = "InFieldName"
+        P, Q, m, dist = x.sorted(self.RAW, self.NORMAL)
+        cv, facts = x.curve("nc", P, Q, m, lambda c: x.view(N, c))
+        return dict(shape=x.shape(N), dtype=FLT, miss=lambda c: x.miss(N, c), value=cv)
+
+
+class _CurveLoop(LoopContract):
+    SPEC = "NormalizeCurve"
+    KEY = "nc"
+
+    def inv(self, I):
+        x = I.eng.x
+        N = "InFieldName"
+        sp = SPECS[self.SPEC]
+        P, Q, m, dist = sp.sorted(x)
+        cv, facts = x.curve(self.KEY, P, Q, m, lambda c: x.view(N, c))
+        I.temps("i", "raw", "normal", "prev_raw", "prev_normal", "m", "b", "where_idx")
+        j = I.j
+        I.arr("result", "MA", FLT, x.shape(N), lambda c: z3.BoolVal(False), cv,
+              where=lambda c: z3.And(z3.Not(x.miss(N, c)), x.view(N, c) <= P(j)))
+
+
+def _nc_sorted(self, x):
+    return x.sorted(self.RAW, self.NORMAL)
+
+
+NormalizeCurveSpec.sorted = _nc_sorted
+
+
+@loop(B + "::NormalizeCurve.execute", "for", 0)
+class NormalizeCurveLoop(_CurveLoop):
+    pass
